@@ -188,6 +188,12 @@ def gen_cfg(rnd, explainer, exact, allow_discontinuous=False):
     if aux.random() < 0.15 and cfg["n_inner"] < 8 and cfg["steps"] >= 6 and not (cfg.get("reuse_out")):
         # the user re-assigns the public attribute `n_inner_samples` between two observations: later calls use the new value
         cfg["reassign_inner"] = (aux.randrange(2, cfg["steps"] - 1), aux.choice([1, 2, 3, 4]))
+    if aux.random() < 0.3:
+        cfg["label_order"] = "by-value"      # multi-label outputs list the most probable label first: the key ORDER differs between outputs
+    if exact and aux.random() < 0.35 and cfg["out_type"] == "plain" and isinstance(cfg["alpha"], Q) and cfg["loss"] in ("hash", "zero", "zero-one") \
+            and cfg["model"] not in ("linear", "positional"):
+        # (with a rational smoothing rate and a loss that returns the harness' rationals nothing in the library turns these into floats)
+        cfg["out_type"] = "fraction"         # model outputs are plain fractions.Fraction objects (not the harness' absorbing rational)
     return cfg
 
 
@@ -233,6 +239,7 @@ class Scenario:
         self.names0 = list(self.names)
         self.model = Models(cfg["model"], self.names, exact=cfg["exact"], clock=self.clock,
                             out_type=cfg.get("out_type", "plain"), label_keys=cfg.get("label_keys", "int"))
+        self.model.label_order = cfg.get("label_order", "fixed")
         if cfg.get("memo_model"):
             self.model.memo = {}
         if cfg.get("reuse_out") and cfg["n_inner"] == 1 and not cfg.get("vary_calls") and cfg["imputer"] != "custom":
